@@ -336,8 +336,8 @@ fn run(run: &mut Run) {
     run.rule("(->) G-rawlib libraries incl. abstract views (outline, multi-layer ports, blockages), cells in shuffled listing order, eight instance orientations, all shape kinds with nets, annotations, units micro/nano/angstrom: to_proto lists every cell after the cells it instantiates, from_proto succeeds, and name, units, views, shapes (multisets), instances, annotations, ports and blockages are equal. (<-) generated protobuf messages in the supported subset (cells before users, unique layer keys per list, non-empty shape lists, non-negative sizes, right-angle rotations) with a Layers table defining the Pin/Obstruction numbers: from_proto then to_proto equals the message (port/blockage layer lists compared as multisets). Non-trivial = >= 2 cells with an instance listed before its target (->) / with an instance (<-), and a net; distinct by hash.");
     run.assume("Units::Pico is not in the schema and is not generated; the order of map-derived lists is C20's subject");
     run.min_nontrivial = 200;
-    run.explore("raw-proto-raw", run.tier.pick(150_000, 1_000_000), 1200, &forward_case);
-    run.explore("proto-raw-proto", run.tier.pick(150_000, 1_000_000), 1200, &backward_case);
+    run.explore("raw-proto-raw", run.tier.pick(300_000, 3_000_000), 1200, &forward_case);
+    run.explore("proto-raw-proto", run.tier.pick(300_000, 3_000_000), 1200, &backward_case);
 }
 fn case(sub: &str) -> Option<Box<CaseFn<'static>>> {
     match sub {
